@@ -376,16 +376,74 @@ print(bad); sys.exit(1 if bad else 0)
         rep.add('C14.forward_ref.not_remembered_as_failing', 'refuted', backend='runtime-contract', where=(p.stdout + p.stderr)[-300:], solver_output='bounded run-time contract (not a proof)',
                 replay=dict(reproduced=True, detail=p.stdout.strip()[-200:]), replay_script=src)
 
+REPR_SRC = """
+from typing import Annotated
+from beartype.vale import Is
+from beartype.door import is_bearable
+def mk(k): return list[Annotated[int, Is[lambda x: x > k]]]
+h1, h2 = mk(0), mk(100)          # two different hints with the same repr()
+first = is_bearable([5], h1)      # earlier query with a similar hint
+later = is_bearable([5], h2)      # must not depend on it: 5 > 100 is False
+print("is_bearable([5], k=0) ->", first, "; then is_bearable([5], k=100) ->", later)
+sys.exit(1 if later else 0)
+"""
+def coerce_transparent(rep):
+    """coerce_hint_any deduplicates uncached hints through a table keyed by repr(hint).  Transparency: whatever earlier hints were
+    coerced, the hint returned IS the argument or compares equal to it.  The table is a ghost map from representations to hints with the
+    invariant `every stored hint is stored under its own representation` (re-proved at the store: the callee contract of
+    cache_or_get_cached_value, itself proved above, stores exactly (key, value))."""
+    from pyvc import funcmode, model as M, discharge
+    from pyvc.symx import Exec, St, VObj, VPy, VBool
+    import beartype._check.convert._convcoerce as mod
+    fobj, node, _ = funcmode.load('beartype/_check/convert/_convcoerce.py', 'coerce_hint_any')
+    uni = M.Universe()
+    HINT = z3.Const('hint', M.Obj)
+    hrepr = z3.Function('hint_repr', M.Obj, M.Obj); present = z3.Function('T_present', M.Obj, z3.BoolSort()); stored = z3.Function('T_stored', M.Obj, M.Obj)
+    worthy = z3.Function('is_cacheworthy', M.Obj, z3.BoolSort())
+    def m_worthy(ex, s, f, a, kw, w): return [(s, VBool(worthy(ex.obj(a[0]))))]
+    def m_repr(ex, s, f, a, kw, w): return [(s, VObj(hrepr(ex.obj(a[0]))))]
+    def m_cache(ex, s, f, a, kw, w):
+        key = ex.obj(kw['key'] if 'key' in kw else a[0]); val = ex.obj(kw['value'] if 'value' in kw else a[1])
+        s = s.ev('table', key, val)
+        return [(s, VObj(z3.If(present(key), stored(key), val)))]
+    cm = {mod.is_hint_cacheworthy: m_worthy, mod.get_hint_repr: m_repr, mod._hint_repr_to_hint.cache_or_get_cached_value: m_cache}
+    ex = Exec(uni, dict(mod.__dict__), call_model=cm, name='coerce_hint_any')
+    outs = ex.run_function(node, St(), (VObj(HINT),), {}, fobj)
+    k = z3.Const('k_', M.Obj)
+    inv = z3.ForAll([k], z3.Implies(present(k), hrepr(stored(k)) == k))
+    pr = discharge.Prover(uni.axioms() + [inv])
+    for ob in ex.obls:
+        r = pr.prove(list(ob.pc), ob.goal); rep.add(f'C14.coerce_hint_any.{ob.kind}#{ob.name.rsplit(".", 1)[-1]}', r.status, time=r.time, backend=r.backend, where=ob.where)
+    if not outs: rep.error('C14.coerce_hint_any: no path')
+    for i, (s, v) in enumerate(outs):
+        res = ex.obj(v)
+        r = pr.prove(list(s.pc), z3.Or(res == HINT, M.eq(res, HINT)))
+        extra = {}
+        if r.status == 'refuted':
+            import subprocess, sys
+            from pyvc import VERIF, REPO
+            src = f"import sys, os\nos.environ['VERIF_REPO'] = {REPO!r}\nsys.path.insert(0, {VERIF!r})\nimport pyvc; pyvc.use_repo()\n" + REPR_SRC
+            p = subprocess.run([sys.executable, '-c', src], capture_output=True, text=True, timeout=120)
+            extra = dict(replay=dict(kind='C14', reproduced=p.returncode == 1, tried=[dict(out=(p.stdout + p.stderr)[-300:])], detail=p.stdout.strip()[-250:]),
+                         replay_script=(("os.environ['VERIF_REPO'] = %r\nimport pyvc; pyvc.use_repo()\n" % REPO) + REPR_SRC) if p.returncode == 1 else None)
+        rep.add(f'C14.coerce_hint_any.post.returns_equal_hint.path{i}', r.status, time=r.time, backend=r.backend, reason=r.reason, **extra,
+                where='the coerced hint is the argument itself or compares equal to it, whatever hints were coerced before (equal representations do not imply equal hints)')
+        # the table invariant is preserved: whatever is stored is stored under its own representation
+        for e in s.events:
+            if e[0] == 'table':
+                r2 = pr.prove(list(s.pc), hrepr(e[2]) == e[1])
+                rep.add(f'C14.coerce_hint_any.inv.stored_under_own_repr.path{i}', r2.status, time=r2.time, backend=r2.backend, where='the value handed to the table is keyed by its own representation')
+
 def main(tier, seed):
     rep = report.Report('C14', tier, seed, 'proof', f'./check C14 --tier {tier}')
     for fn, args in ((memoiser, ('callable_cached', 'beartype/_util/cache/utilcachecall.py', 'callable_cached', '_callable_cached', False)),
                      (memoiser, ('method_cached_arg_by_id', 'beartype/_util/cache/utilcachecall.py', 'method_cached_arg_by_id', '_method_cached', True)),
-                     (cache_unbounded, ()), (structural, ()), (redefinition, ()), (cacheable_flag, ()), (forward_refs, ())):
+                     (cache_unbounded, ()), (structural, ()), (redefinition, ()), (cacheable_flag, ()), (forward_refs, ()), (coerce_transparent, ())):
         try: fn(rep, *args)
         except Exception: rep.error(f'C14 {fn.__name__}{args[:1]}: ' + traceback.format_exc()[-1800:])
     files = ['beartype/_util/cache/utilcachecall.py', 'beartype/_util/cache/map/utilmapunbounded.py', 'beartype/_util/cache/utilcacheclear.py', 'beartype/_decor/_type/decortype.py']
     rep.functions = ['callable_cached.<locals>._callable_cached', 'method_cached_arg_by_id.<locals>._method_cached', 'CacheUnboundedStrong.cache_or_get_cached_func_return_passed_arg',
-                     'CacheUnboundedStrong.cache_or_get_cached_value', 'clear_caches (structural)', '_uncache_beartype_if_type_redefined (bounded run-time contract)'] + [f'{p}@{report.src_hash(p)}' for p in files]
+                     'CacheUnboundedStrong.cache_or_get_cached_value', 'coerce_hint_any', 'HintTreeCode.sanify_hint_child', 'clear_caches (structural)', '_uncache_beartype_if_type_redefined (bounded run-time contract)'] + [f'{p}@{report.src_hash(p)}' for p in files]
     from pyvc import model as M
     rep.trusted = ['pyvc', 'z3 5.1 / cvc5'] + M.ASSUMED_SEMANTICS + ['dict get/set identify keys modulo ==/hash and raise TypeError for an unhashable key']
     rep.assumptions = ['precondition of every memoised function: deterministic in time and a congruence for ==/hash of its arguments (exceptions are cached: a function whose failure is transient violates this - forward-reference resolution is NOT memoised by these decorators, see fwdrefmeta)',
